@@ -241,8 +241,10 @@ type rHist struct {
 	listedSet map[string]bool // names that were newest non-ignored of their instance at a successful listing
 	lastDeliv map[int]string  // last name returned by Next per instance
 	oracle    []OracleFailure
-	oracleN   int
-	acts      map[string]int
+	// the environment assumption of C16_once_exits was violated in this history
+	ownDisturbed bool
+	oracleN      int
+	acts         map[string]int
 }
 
 var (
@@ -374,6 +376,9 @@ func rcvKindCoq(k string) string {
 }
 
 func (h *rHist) publish(r *Rng, j int, ok bool, kind string) {
+	if j == h.own && h.started && h.set.Contains(rcvInstName(h.own)) {
+		h.ownDisturbed = true
+	}
 	seq := h.nextSeq
 	h.nextSeq++
 	ts := rBase.Add(time.Duration(seq) * time.Second)
@@ -413,6 +418,9 @@ func (h *rHist) present() []*rname {
 }
 
 func (h *rHist) delete(n *rname) {
+	if n.Inst == h.own && n.Kind == "snap" && !h.marked[n.Full] && h.started && h.set.Contains(rcvInstName(h.own)) {
+		h.ownDisturbed = true
+	}
 	_ = h.st.Delete(h.ctx, n.Full)
 	h.record(fmt.Sprintf("ADelete %d %d", n.Inst, n.Seq), fmt.Sprintf("delete %s#%d", rcvInstName(n.Inst), n.Seq))
 }
@@ -615,19 +623,16 @@ func (h *rHist) finalOracles() {
 		}
 	}
 	if h.once && !h.exited {
-		clause := "once-exits"
-		ownCorrupt := false
-		for full := range h.marked {
-			if h.names[full].Inst == h.own {
-				ownCorrupt = true
-			}
+		// C16_once_exits is claimed for histories in which, while the own instance was waited for, nobody
+		// stored under the own instance's name or deleted an own snapshot that was not marked corrupt
+		if len(o.Wait) == 1 && o.Wait[0] == h.own && h.ownDisturbed {
+			h.acts["once-own-disturbed"]++
+			// residual wedge (listed in KNOWN_FINDINGS.txt): reported with its own clause so that it is
+			// announced as a known finding, and any other once-exits failure remains a violation
+			h.fail("once-exits@own-snapshot-removed-during-startup", fmt.Sprintf("only_once: still waiting for the own instance %v after the own snapshot being fetched was deleted during start-up and the next one is undecodable", o.Wait))
+		} else {
+			h.fail("once-exits", fmt.Sprintf("only_once: bucket stable, every downloader idle, nothing ready, but still waiting for %v: syncLoop would never return", o.Wait))
 		}
-		if len(o.Wait) == 1 && o.Wait[0] == h.own && ownCorrupt {
-			// the known wedge: the own instance's newest snapshot did not decode at start-up; polls with
-			// includingOwn=false never notify the own downloader again (C16_once_exits_refuted)
-			clause = "once-exits-own-corrupt"
-		}
-		h.fail(clause, fmt.Sprintf("only_once: bucket stable, every downloader idle, nothing ready, but still waiting for %v: syncLoop would never return", o.Wait))
 	}
 }
 
